@@ -657,7 +657,9 @@ func (in *Interp) Resume(co *Coroutine, args []Value) (bool, []Value) {
 	case "running":
 		return false, []Value{&Opaque{Kind: "anystring", Rest: "cannot resume running coroutine"}}
 	case "normal":
-		in.indet("resume of a coroutine whose status is normal")
+		// lcorolib.c auxresume: any status other than suspended is refused the same way
+		in.NormalResumes++
+		return false, []Value{&Opaque{Kind: "anystring", Rest: "cannot resume normal coroutine"}}
 	}
 	prev := in.cur
 	// save the resumer's context
